@@ -68,3 +68,19 @@ Definition gen_jp_summary_fmt (lang : Z) : str * str :=
 Definition gen_jp_transfer (lang : Z) : str :=
   if lang =? 0 then [84; 114; 97; 110; 115; 102; 101; 114] else
    [84; 114; 97; 110; 115; 102; 101; 114].
+(* the template's legend sheet per language: size, non-empty cells, the row of the translated "Accounting Method", translated name *)
+Definition gen_jp_legend_rows (lang : Z) : Z :=
+  if lang =? 0 then 103 else
+   113.
+Definition gen_jp_legend_cols (lang : Z) : Z :=
+  if lang =? 0 then 3 else
+   3.
+Definition gen_jp_legend_cells (lang : Z) : list (Z * Z) :=
+  if lang =? 0 then [(0, 0); (1, 0); (2, 0); (3, 0); (5, 0); (7, 0); (7, 1); (8, 0); (8, 1); (9, 0); (9, 1); (11, 0); (11, 1); (12, 1)] else
+   [(0, 0); (1, 0); (2, 0); (3, 0); (5, 0); (7, 0); (7, 1); (8, 0); (8, 1); (9, 0); (9, 1); (11, 0); (11, 1); (12, 1); (13, 1); (14, 1); (15, 1); (16, 1); (17, 1); (18, 1); (19, 1); (20, 1); (22, 0); (22, 1); (23, 1)].
+Definition gen_jp_legend_method_row (lang : Z) : option Z :=
+  if lang =? 0 then (Some 7) else
+   (Some 7).
+Definition gen_jp_legend_name (lang : Z) : str :=
+  if lang =? 0 then [76; 101; 103; 101; 110; 100] else
+   [95; 95; 116; 101; 115; 116; 95; 76; 101; 103; 101; 110; 100].
